@@ -10,7 +10,7 @@ OWNERS = {"Own5x3": ("1,1,2,2,3", 3), "Own6x4": ("1,1,2,2,3,4", 4), "Own6x3": ("
 
 C08_FIELDS = ("connect outcome", "kind of gate", "path_iter", "next_gate", "path_end", "deliveries", "receiver of",
               "arrival time", "header", "total number of deliveries", "run ")
-C19_FIELDS = ("global:", "spanned(", "filter_nodes(", "dijkstra(")
+C19_FIELDS = ("global:", "spanned(", "filter_nodes(", "filter_edges(", "dijkstra(")
 
 
 def mc(v, wd, own, ng, nm, calls):
@@ -68,6 +68,44 @@ CHECK_DEADLOCK FALSE
         log(f"[{prop}] note: {other} mismatch example(s) concern the sibling property (C08 <-> C19) and are reported by its check")
 
 
+def record_validate(v, wd, tier):
+    """Direction V: random wirings over 12 gates / 7 modules, observations validated by TLC (Trace_Gates)."""
+    from concurrent.futures import ThreadPoolExecutor
+    import c_fes
+    runs = 150 if tier == "quick" else 1500
+    files = [os.path.join(wd, f"gtrace{i}.ndjson") for i in range(vlib.NCPU)]
+    # even files: sparse graphs on 7 modules, odd files: dense graphs on 5 modules
+    outs = vlib.run_vh_parallel([["gates", "record", "--seed", str(vlib.seed() * 100 + i), "--runs", str(runs), "--out", f,
+                                  "--dense", str(i % 3)] for i, f in enumerate(files)])
+    vlib.collect(v, outs, "gates", "recording topology observations of random wirings")
+
+    def one(i):
+        if "crash" in outs[i] or "hang" in outs[i] or not os.path.exists(files[i]):
+            return 0, [], None
+        consts = ["NG = 12 NM = 7 Owner <- Own12x7 MaxCalls = 1000", "NG = 12 NM = 5 Owner <- Own12x5 MaxCalls = 1000",
+                  "NG = 12 NM = 6 Owner <- Own12x6 MaxCalls = 1000"][i % 3]
+        return c_fes.validate_trace_file("Trace_Gates", consts, files[i], wd, f"g{i}")
+    with ThreadPoolExecutor(max_workers=8) as ex:
+        results = list(ex.map(one, range(len(files))))
+    acc = 0
+    with_obs = 0
+    for a, rej, r in results:
+        acc += a
+        if r is not None:
+            v.add_tlc("Trace_Gates validation", r)
+        for x in rej:
+            v.add_violation("recorded wiring / topology observation contradicts the definitions in Gates.tla (first unmatched line "
+                            f"{x['first_unmatched_line_in_run']} of the run: {json.dumps(x['run'][x['first_unmatched_line_in_run'] - 1])[:300]})",
+                            x, {"suite": "gates", "kind": "trace"})
+    for f in files:
+        if os.path.exists(f):
+            with_obs += sum(1 for ln in open(f) if '"op":"obs"' in ln)
+    v.cov["traces_validated_against_impl"] += acc
+    v.cov["recorded_runs_accepted"] = acc
+    v.cov["recorded_runs_with_observation"] = with_obs
+    log(f"[C19] Trace_Gates: {acc} recorded runs accepted ({with_obs} with full topology observation, 12 gates on 7 resp. 5 modules)")
+
+
 def c08(tier):
     v = Verdict("C08", tier)
     vlib.build_harness()
@@ -99,6 +137,7 @@ def c19(tier):
     gen_replay(v, wd, "C19", "Own5x3", 5, 3, 4, 1, C19_FIELDS, "b")
     # rings (two paths of different length between modules) need two gates on each of three modules
     gen_replay(v, wd, "C19", "Own6x3", 6, 3, 4 if tier == "quick" else 5, 1, C19_FIELDS, "c")
+    record_validate(v, wd, tier)
     v.cov["rule"] = ("for every distinct wiring in the bound: Globals::topology and Topology::spanned(root) for every root (node set, edge "
                      "set with gate labels, edges_for), connected, bidirectional, filter_nodes for every subset of modules, dijkstra from "
                      "every source (key set = reachable nodes, value = any first edge of a minimum-hop path), all compared with the "
